@@ -126,6 +126,10 @@ def signed_kernel(rng, kshape, nonneg=False, special=True):
         r = rng.random()
         if special and r < 0.12:
             k[idx] = 0.0
+        elif special and r < 0.22:
+            # small exact values, as in finite-difference kernels (Laplacian: -1 / 4, gradient: -1 / 1); -1 is also the value the
+            # convolver pads its frame tables with
+            k[idx] = rng.choice([1.0, 2.0, 0.5, 4.0]) if nonneg else rng.choice([-1.0, 1.0, -1.0, 2.0, -2.0, 0.5, 4.0])
         else:
             k[idx] = rng.uniform(0.05, 2.0) if nonneg else rng.uniform(-2.0, 2.0)
     if not k.any():
